@@ -211,6 +211,9 @@ def c02_scope(tier):
         P.append((f"any:{cmp_}", B1 + f"Signal r = any(b) {cmp_} 5;\n"))
         P.append((f"all:{cmp_}", B1 + f"Signal r = all(b) {cmp_} 5;\n"))
         P.append((f"gate:{cmp_}", B1 + S + f"Bundle r = (s {cmp_} 3) : b;\n"))
+        # any()/all() against a SIGNAL: the scalar must not be ranged over by the wildcard
+        P.append((f"any-sig:{cmp_}", B1 + S + f"Signal r = any(b) {cmp_} s;\n"))
+        P.append((f"all-sig:{cmp_}", B1 + S + f"Signal r = all(b) {cmp_} s;\n"))
     P.append(("select", B1 + 'Signal r = b["signal-B"] * 2;\nSignal q = b["iron-plate"] + b["signal-A"];\n'))
     P.append(("literal-computed", 'Signal x = ("signal-A", 6);\nSignal y = ("signal-B", 4);\n'
               'Bundle r = { x * 2, y + 1, ("signal-C", 9) };\n'))
@@ -235,6 +238,8 @@ def c02_scope(tier):
               'Bundle h = { ("signal-A", 1), ("signal-B", 2) } * 3;\n'))
     P.append(("nested-merge", XYS + "Bundle a = { x, y };\nBundle b = { a, s };\nBundle c = b + 1;\n"))
     P.append(("scalar-shared-gate", B1 + S + "Bundle g = (s > 2) : b;\nBundle m = b * s;\n"))
+    P.append(("all-sig-of-each", B1 + S + "Signal r = all(b * 2) >= s;\nSignal q = any(b + 1) < s;\n"))
+    P.append(("all-sig-member-name", B1 + M + "Signal r = all(b) > m;\n"))
     P.append(("zero-members", 'Bundle b = { ("signal-A", 0), ("signal-B", 5) };\nBundle r = b + 10;\nSignal q = all(b) > 3;\nSignal p = any(b) < 1;\n'))
     return P
 
